@@ -13,8 +13,8 @@ use serde_json::{json, Value};
 
 pub const ALPHABET: [char; 17] = ['"', '\\', '~', '%', '(', ')', ';', '#', '\'', '\n', '\t', '\u{1}', '\u{7f}', 'é', '日', 'a', ' '];
 
-pub const CARRIERS: [&str; 17] = [
-    "name", "iname", "path", "ipath", "pool", "xattr", "xattr-match-attr", "xattr-match-value", "fprint", "fprint0", "fprintf-file", "printf-literal", "fprintf-literal", "strftime-A", "strftime-C",
+pub const CARRIERS: [&str; 18] = [
+    "printf-octal", "name", "iname", "path", "ipath", "pool", "xattr", "xattr-match-attr", "xattr-match-value", "fprint", "fprint0", "fprintf-file", "printf-literal", "fprintf-literal", "strftime-A", "strftime-C",
     "strftime-T", "device",
 ];
 
@@ -22,10 +22,10 @@ fn hostile(c: char) -> bool {
     matches!(c, '"' | '\\' | '~' | ';' | '#' | '(' | ')' | '%') || c.is_control() || !c.is_ascii()
 }
 
-/// `s` with every hostile character replaced by 'a' (keeping the characters that legitimately
-/// select a different matcher: `* ? [ '`).
+/// `s` with every character replaced by 'a', except the characters that legitimately select a
+/// different matcher (`* ? [ '`) and blanks.
 fn neutral(s: &str) -> String {
-    s.chars().map(|c| if hostile(c) { 'a' } else { c }).collect()
+    s.chars().map(|c| if "*?[' ".contains(c) { c } else { 'a' }).collect()
 }
 
 /// Build the tree carrying `s` at `carrier`; None if the carrier cannot hold it.
@@ -68,13 +68,22 @@ fn tree_for(carrier: &str, s: &str) -> Option<E> {
             };
             E::A(Act::Printf(vec![FEl::F(f), FEl::E(Esc::Newline)]))
         }
+        "printf-octal" => {
+            // every character written as a \\NNN escape of the format language
+            if s.is_empty() || !s.chars().all(|c| (c as u32) < 128 && c != '\0' && c != '\u{1e}') {
+                return None;
+            }
+            let mut f: Vec<FEl> = s.chars().map(|c| FEl::E(Esc::Ascii(c as u16))).collect();
+            f.push(FEl::E(Esc::Newline));
+            E::A(Act::Printf(f))
+        }
         "device" => E::T(Tst::True),
         _ => return None,
     })
 }
 
 fn is_format_literal(carrier: &str) -> bool {
-    carrier.ends_with("-literal")
+    carrier.ends_with("-literal") || carrier == "printf-octal"
 }
 
 /// How `s` must appear inside the carrier's string literal.
@@ -269,9 +278,30 @@ pub fn run(ctx: &Ctx) -> Report {
     total.merge(ex);
     total.exhaustive_parts.push(format!("every string of length 1..={max_len} over the 17-symbol hostile alphabet x {} carriers", CARRIERS.len()));
 
+    // dictionary: tokens taken from the code generator's own sources (placeholders, literals)
+    let dict = crate::dict::tokens();
+    let mut st = Stats::new();
+    for carrier in CARRIERS {
+        for t in &dict {
+            for s in [t.clone(), format!("a{t}"), format!("{t}{t}")] {
+                let v = judge(carrier, &s);
+                let v = match v {
+                    Verdict::Pass { class, .. } => Verdict::Pass { nt: true, class },
+                    o => o,
+                };
+                st.record(&v, stable_hash(&(carrier, &s)), true, || case_json(carrier, &s));
+            }
+        }
+    }
+    total.merge(st);
+    total.extra.insert("dictionary_tokens".into(), json!(dict.len()));
+    total.exhaustive_parts.push("every carrier x every token of a dictionary extracted from the code generator's sources (format placeholders such as {mdt}, emitted literals)".into());
+
     let cases = ctx.tier.pick(16_000u32, 400_000u32);
     let shards = 16;
+    let dict2 = dict.clone();
     let rnd = run_shards(shards, |shard| {
+        let dict = dict2.clone();
         let mut st = Stats::new();
         let strat = (
             0usize..CARRIERS.len(),
@@ -280,6 +310,7 @@ pub fn run(ctx: &Ctx) -> Report {
                 1 => "[ -~]{1,30}",
                 1 => "\\PC{1,12}",
                 1 => "[a-z*?\\[\\]\"\\\\]{1,10}",
+                1 => proptest::collection::vec(prop_oneof![prop::sample::select(dict.clone()), "[a-z\"\\\\ ]{0,3}"], 1..4).prop_map(|v| v.concat()),
             ],
         );
         run_prop(&mut st, ctx.seed, "C04", shard as u64, cases / shards as u32, &strat, |(c, s)| judge(CARRIERS[*c], s), |(c, s)| case_json(CARRIERS[*c], s));
